@@ -79,6 +79,9 @@ def check_render(w, size, focus, mode_name, wmode, what=""):
     return canv
 
 
+MAX_CELLS = 200_000  # largest canvas the harness examines cell by cell (sizes asked for are <= 40 x 20)
+
+
 def _validate(w, canv, size, focus, mode_name, wmode, what, cold):
     cols, rows = canv.cols(), canv.rows()
     if mode_name == "box":
@@ -102,6 +105,10 @@ def _validate(w, canv, size, focus, mode_name, wmode, what, cold):
         exp = tuple(w.pack((), focus))
         if (cols, rows) != exp:
             raise Violation("fixed-size", f"{what}render((), {focus}) gave {cols}x{rows}, pack() says {exp}")
+    if cols * rows > MAX_CELLS:
+        # cost bound of the harness, not a verdict: nested relative widths of 1-2 % rendered FIXED ask for canvases of
+        # 10**4..10**6 columns (each level multiplies by 100/percent); walking them cell by cell takes minutes
+        raise Discard()
     if cols == 0 or rows == 0:
         # a fixed widget with nothing to show packs to a zero-area canvas: nothing to draw, and
         # Canvas.content() is not defined for it (containers skip such children) -> assert nothing more
